@@ -69,7 +69,7 @@ fn my_lat(r: &mut Rng) -> Lat {
     let ox = *r.pick(&offs);
     let oy = if r.chance(1, 2) { ox } else { *r.pick(&offs) };
     let sh = if r.chance(1, 2) { 0 } else { r.range(-30, 30) as i32 };
-    Lat { ox, oy, sh }
+    Lat { ox, oy, sh, shear: 0 }
 }
 
 // =====================================================================================
